@@ -14,7 +14,7 @@ using namespace c09;
 namespace { const int NH = 5; }
 
 void pbt_generate(Rng& r, int size, Case& c) {
-  c.params["kind"] = (long)r.below(5);
+  c.params["kind"] = (long)r.below(NKIND);
   int n = 2 + (int)r.below((uint64_t)size + 1);
   static const char* names[] = {"make", "copy", "assign", "swap", "modify", "destroy", "raw", "clear", "ownpart"};
   static const int w[] = {8, 22, 22, 12, 18, 14, 4, 8, 5};
@@ -25,7 +25,7 @@ bool pbt_nontrivial(const Ctx& ctx) { return ctx.has("swap_or_assign_between_pay
 
 void pbt_run(const Case& cs, Ctx& ctx) {
   pbt::g_ledger.limitBytes = 16u << 20;
-  int kind = (int)(((cs.param("kind", 0) % 5) + 5) % 5);
+  int kind = (int)(((cs.param("kind", 0) % NKIND) + NKIND) % NKIND);
   Kind* k = kindOf(kind);
   memset(g_dtor, 0, sizeof g_dtor); g_objs = 0;
   void* h[NH]; std::string m[NH]; int pay[NH];  // pay: model-side payload identity (for labels and the Ptr object count)
@@ -36,7 +36,7 @@ void pbt_run(const Case& cs, Ctx& ctx) {
   h[2] = k->copy(h[0]); m[2] = m[0]; pay[2] = pay[0];
   h[3] = k->copy(h[1]); m[3] = m[1]; pay[3] = pay[1];
   auto objCountCheck = [&](const char* opname) {
-    if (kind != 3) return;
+    if (!isPtrKind(kind)) return;
     // an object is destroyed exactly when no handle refers to it any more
     int refs[4096]; memset(refs, 0, sizeof(int) * (size_t)std::min(g_objs, 4096));
     for (int i = 0; i < NH; ++i) if (h[i]) { int id = k->objectId(h[i]); if (id >= 0 && id < 4096) ++refs[id]; }
@@ -59,7 +59,7 @@ void pbt_run(const Case& cs, Ctx& ctx) {
     }
     else if (nm == "swap") {
       if (!h[a] || !h[b]) { ctx.count("skipped"); continue; }
-      if (kind == 3 && ctx.excluded("C09-ptr-swap")) { ctx.count("skipped"); continue; }
+      if (isPtrKind(kind) && ctx.excluded("C09-ptr-swap")) { ctx.count("skipped"); continue; }
       if (!k->swap(h[a], h[b])) { ctx.count("skipped"); continue; }
       if (a != b) { std::swap(m[a], m[b]); if (pay[a] != pay[b]) recentMix = a; std::swap(pay[a], pay[b]); } else ctx.label("swap_self");
       ctx.label("swap");
@@ -77,7 +77,7 @@ void pbt_run(const Case& cs, Ctx& ctx) {
     }
     else if (nm == "raw") {
       // RefCount::Ptr: assignment of a raw pointer / null
-      if (kind != 3 || !h[a]) { ctx.count("skipped"); continue; }
+      if (!isPtrKind(kind) || !h[a]) { ctx.count("skipped"); continue; }
       ObjPtr& p = *(ObjPtr*)h[a];
       if (op.a[3] & 1) { p = (Obj*)0; m[a] = "(null)"; pay[a] = nextPay++; }
       else if (h[b]) { ObjPtr& q = *(ObjPtr*)h[b]; Obj* rawp = q.operator->(); p = rawp; m[a] = m[b]; pay[a] = pay[b]; }
